@@ -2,16 +2,16 @@ import NasVerif.Model.Security
 import NasVerif.Spec.EEA
 import NasVerif.Proofs.Snow3gRefine
 import NasVerif.Proofs.ZucRefine
+import NasVerif.Proofs.EncBits
 import NasVerif.Gen.Unrecognised
 /-!
 # C06 — NEA1/NEA2/NEA3 equal the standard 128-EEA1/2/3 functions
 
-Proved here (kernel-checked): the lookup tables regenerated from the source equal the standards' tables; the model of
-`snow3g.go` generates exactly the SNOW 3G keystream of the specification for every key, IV and length; NEA2 is
-128-EEA2 for every block cipher; the model of `zuc.go` generates the ZUC keystream of the specification
-(`Proofs/ZucRefine.lean`). The remaining refinement steps (the byte loops of NEA1/NEA3
-against the bit-string definitions of f8 / 128-EEA3) are stated below as `…_statement` and are checked on every run by
-the direct implementation-vs-specification differential stream (`secspec`), not yet by proof: level is "proof, partial".
+Proved here (kernel-checked): the lookup tables regenerated from the source equal the standards' tables; the models of
+`snow3g.go` and `zuc.go` generate exactly the SNOW 3G / ZUC keystreams of the specifications for every key, IV and length;
+NEA1 is UEA2 f8 and NEA3 is 128-EEA3 for every bit length (`Proofs/EncBits.lean`), NEA2 is 128-EEA2 for every block cipher;
+the in-place API is those functions at LENGTH = 8·octets. The implementation-vs-specification differential stream
+(`secspec`) still runs on every check as the tie of the model to the code.
 -/
 namespace NasVerif.Props.C06
 open NasVerif NasVerif.Model
@@ -54,7 +54,7 @@ theorem nasEncrypt2_spec (E : Bytes → Bytes → Bytes) (key : Bytes) (count : 
   simp [hlen]
   rw [← hlen, List.take_length]
 
-/-! ### not yet proved (checked by the `secspec` differential stream on every run) -/
+/-! ### ZUC, NEA1, NEA3 -/
 
 /-- ZUC: the model of zuc.go generates the specification's keystream, for every key, IV and number of words
 (the LFSR refinement: end-around-carry fold = reduction mod 2^31 - 1 on representatives in [1, p]) -/
@@ -66,21 +66,86 @@ theorem zuc_keystream (k iv : Bytes) (n : Nat) :
   rw [e, e] at h
   exact h
 
-/-- NEA1 = UEA2 f8 on the first LENGTH bits; the rest of the output is what the code leaves (input octets untouched
-beyond ⌈LENGTH/8⌉ are zero) -/
-def nea1_statement : Prop :=
-  ∀ (ck : Bytes) (count b d : Nat) (ibs : Bytes) (length : Nat),
-    ck.length = 16 → count < 2^32 → b < 32 → d < 2 → length ≤ 8 * ibs.length → length + 31 < 2^32 →
+theorem f8_iv : ∀ b, b < 32 → ∀ d, d < 2 →
+    ((BitVec.ofNat 32 b <<< 27) ||| (BitVec.ofNat 32 d <<< 26)) = BitVec.ofNat 32 (b * 2^27 + d * 2^26) := by decide
+
+/-- NEA1 = UEA2 f8 (128-EEA1) for every key, COUNT, bearer 0–31, direction, input and every bit length LENGTH ≤ 8·|input|:
+the call succeeds, the output has the input's length, and its first LENGTH bits are f8 of the first LENGTH input bits -/
+theorem nea1_spec (ck : Bytes) (count b d : Nat) (ibs : Bytes) (length : Nat) (hb : b < 32) (hd : d < 2)
+    (hlen : length ≤ 8 * ibs.length) :
     ∃ out, Security.NEA1 ck (BitVec.ofNat 32 count) (BitVec.ofNat 32 b) (BitVec.ofNat 32 d) ibs length = .ok out ∧
       out.length = ibs.length ∧
-      (Spec.bytesBits out).take length = Spec.f8 ck count b d ((Spec.bytesBits ibs).take length)
+      (Spec.bytesBits out).take length = Spec.f8 ck count b d ((Spec.bytesBits ibs).take length) := by
+  obtain ⟨out, hrun, hl, hbits⟩ := Proofs.EncBits.nea1_bits ck (BitVec.ofNat 32 count) (BitVec.ofNat 32 b) (BitVec.ofNat 32 d) ibs length
+    (by omega)
+  refine ⟨out, hrun, hl, ?_⟩
+  rw [hbits]
+  have hn : ((Spec.bytesBits ibs).take length).length = length := by
+    rw [List.length_take, Proofs.BitLists.bytesBits_length]; omega
+  unfold Spec.f8
+  simp only [hn]
+  have hk : Security.keyWords ck = Spec.f8Key ck := by
+    simp [Security.keyWords, Spec.f8Key, Security.be32, Spec.word, List.range, List.range.loop]
+  have hiv : Proofs.EncLoops.snowIv (BitVec.ofNat 32 count) (BitVec.ofNat 32 b) (BitVec.ofNat 32 d) = Spec.f8IV count b d := by
+    simp only [Proofs.EncLoops.snowIv, Spec.f8IV, f8_iv b hb d hd]
+  rw [hk, hiv, snow3g_keystream]
 
-def nea3_statement : Prop :=
-  ∀ (ck : Bytes) (count b d : Nat) (ibs : Bytes) (length : Nat),
-    ck.length = 16 → count < 2^32 → b < 32 → d < 2 → length ≤ 8 * ibs.length → length + 31 < 2^32 →
+/-- NEA3 = 128-EEA3 for every key, COUNT, bearer 0–31, direction, input and every bit length -/
+theorem nea3_spec (ck : Bytes) (count b d : Nat) (ibs : Bytes) (length : Nat) (hb : b < 32) (hd : d < 2)
+    (hlen : length ≤ 8 * ibs.length) :
     ∃ out, Security.NEA3 ck (BitVec.ofNat 32 count) (UInt8.ofNat b) (UInt8.ofNat d) ibs length = .ok out ∧
       out.length = ibs.length ∧
-      (Spec.bytesBits out).take length = Spec.eea3 ck count b d ((Spec.bytesBits ibs).take length)
+      (Spec.bytesBits out).take length = Spec.eea3 ck count b d ((Spec.bytesBits ibs).take length) := by
+  obtain ⟨out, hrun, hl, hbits⟩ := Proofs.EncBits.nea3_bits ck (BitVec.ofNat 32 count) (UInt8.ofNat b) (UInt8.ofNat d) ibs length
+    (by omega)
+  refine ⟨out, hrun, hl, ?_⟩
+  rw [hbits]
+  have hn : ((Spec.bytesBits ibs).take length).length = length := by
+    rw [List.length_take, Proofs.BitLists.bytesBits_length]; omega
+  unfold Spec.eea3
+  simp only [hn]
+  unfold Proofs.EncLoops.zucStream
+  simp only []
+  rw [zuc_keystream]
+  have hiv : (Security.put32 (BitVec.ofNat 32 count) ++ [(UInt8.ofNat b <<< 3) ||| (UInt8.ofNat d <<< 2), 0, 0, 0] ++
+      (Security.put32 (BitVec.ofNat 32 count) ++ [(UInt8.ofNat b <<< 3) ||| (UInt8.ofNat d <<< 2), 0, 0, 0])).map (·.toNat) =
+      Spec.eea3IV count b d := by
+    rw [octet5 b hb d hd]
+    have h5 : (UInt8.ofNat (b * 8 + d * 4)).toNat = b * 8 + d * 4 := by
+      rw [UInt8.toNat_ofNat_of_lt' (show b * 8 + d * 4 < 256 by omega)]
+    simp only [Security.put32, Spec.eea3IV, List.map_append, List.map_cons, List.map_nil, h5, BitVec.toNat_ofNat,
+      UInt8.toNat_ofNat']
+    have e0 : count % 2 ^ 32 / 2 ^ 24 % 2 ^ 8 = count / 2 ^ 24 % 256 := by omega
+    have e1 : count % 2 ^ 32 / 2 ^ 16 % 2 ^ 8 = count / 2 ^ 16 % 256 := by omega
+    have e2 : count % 2 ^ 32 / 2 ^ 8 % 2 ^ 8 = count / 2 ^ 8 % 256 := by omega
+    have e3 : count % 2 ^ 32 % 2 ^ 8 = count % 256 := by omega
+    simp [e0, e1, e2, e3]
+  rw [hiv]
+
+/-- in-place API, algorithms 1 and 3: the payload is replaced by the f8 / 128-EEA3 ciphertext of its 8·|payload| bits
+(this is where the wrapper's octet-length → bit-length mapping and the copy back over the payload are pinned) -/
+theorem nasEncrypt13_spec (E : Bytes → Bytes → Bytes) (key : Bytes) (count b d : Nat) (hb : b < 32) (hd : d < 2) (p : Bytes) :
+    (∃ out, Security.NASEncrypt E 1 key (BitVec.ofNat 32 count) (UInt8.ofNat b) (UInt8.ofNat d) (some p) = .ok ⟨false, some out⟩ ∧
+      out.length = p.length ∧ Spec.bytesBits out = Spec.f8 key count b d (Spec.bytesBits p)) ∧
+    (∃ out, Security.NASEncrypt E 3 key (BitVec.ofNat 32 count) (UInt8.ofNat b) (UInt8.ofNat d) (some p) = .ok ⟨false, some out⟩ ∧
+      out.length = p.length ∧ Spec.bytesBits out = Spec.eea3 key count b d (Spec.bytesBits p)) := by
+  have hbn : (UInt8.ofNat b).toNat = b := UInt8.toNat_ofNat_of_lt' (show b < 256 by omega)
+  have hdn : (UInt8.ofNat d).toNat = d := UInt8.toNat_ofNat_of_lt' (show d < 256 by omega)
+  have hb' : ¬ (UInt8.ofNat b > 0x1f) := by simp [UInt8.lt_iff_toNat_lt, hbn]; omega
+  have hd' : ¬ (UInt8.ofNat d > 1) := by simp [UInt8.lt_iff_toNat_lt, hdn]; omega
+  have hfull (out : Bytes) (hl : out.length = p.length) : (Spec.bytesBits out).take (p.length * 8) = Spec.bytesBits out := by
+    apply List.take_of_length_le; rw [Proofs.BitLists.bytesBits_length, hl]; omega
+  have hfullp : (Spec.bytesBits p).take (p.length * 8) = Spec.bytesBits p := by
+    apply List.take_of_length_le; rw [Proofs.BitLists.bytesBits_length]; omega
+  constructor
+  · obtain ⟨out, hrun, hl, hbits⟩ := nea1_spec key count b d p (p.length * 8) hb hd (by omega)
+    refine ⟨out, ?_, hl, by rw [← hfull out hl, hbits, hfullp]⟩
+    simp only [Security.NASEncrypt, hb', hd', if_false, hbn, hdn, hrun]
+    simp [Proofs.EncLoops.copy_same p out hl]
+  · obtain ⟨out, hrun, hl, hbits⟩ := nea3_spec key count b d p (p.length * 8) hb hd (by omega)
+    refine ⟨out, ?_, hl, by rw [← hfull out hl, hbits, hfullp]⟩
+    simp only [Security.NASEncrypt, hb', hd', if_false, hrun]
+    simp [Proofs.EncLoops.copy_same p out hl]
 
 set_option maxRecDepth 1000000 in
 /-- non-vacuity: published SNOW 3G test set 1 through the model -/
